@@ -25,6 +25,13 @@ string, bytes, unknown object, another structure -, another file type, other bin
 context) x fragment (which documented key, with values on both sides of the element's configuration),
 all B lists of one and of two such values, all A lists, all interleavings, judged by the same laws.
 
+Shape axis (c10_alphabet.shape_pool): the content of every value the element selects, held by
+something that is not a (data, context) tuple - a list [data, context], a one-shot iterator over data
+and context - and one-shot iterators of 1, 2 and 3 numbers: plain data that no element selects; it must
+pass as the same object and (foreign-unmutated) an iterator must not have been advanced.  MapBins is
+also run with the documented option get_example_bin (the user's "arbitrary bin" is the last cell) on
+histograms whose first and last cells differ in type.
+
 Every flow is run through a fresh real element in a private directory and judged by the
 metamorphic relation run(interleave(A, B)) ~ interleave(run(A), B):
 
@@ -68,7 +75,8 @@ RULE = ("every (element configuration, list A of selected values, list B of fore
         "and foreign values) - in a decline configuration (the tolerant selector's test raises on the "
         "values it is not meant for) in addition the test must really have failed on a foreign value of "
         "the flow; the B lists of the settings axis (foreign values = carrier x fragment of the "
-        "element's documented context keys) are enumerated and judged in the same way; cases are "
+        "element's documented context keys) and of the shape axis (the content of a selected value in a "
+        "list or a one-shot iterator instead of a tuple) are enumerated and judged in the same way; cases are "
         "distinct by construction of the enumeration")
 ASSUMPTIONS = [
     "foreign (unselected) values are chosen by the documented selection rule of each element: bare "
@@ -81,6 +89,12 @@ ASSUMPTIONS = [
     "output.changed, output.template, histogram.to_graph True, value, variable ...); the keys mean "
     "nothing for a value the element leaves alone. Not combined: a disabling carrier with the "
     "fragment that sets the same key; a string or other iterable with a group key (MapGroup)",
+    "shape axis: a value with context is a tuple (data, context) (lena.flow.get_context: 'a possible "
+    "(data, context) pair'); a list [data, context] and a one-shot iterator are plain data of a type "
+    "that none of the ten elements (in the configurations of the alphabet) selects; the state of an "
+    "iterator (its position) belongs to the value, so advancing it is modifying the value",
+    "MapBins get_example_bin: the user's callable returns the cell with the last index on each axis of "
+    "a histogram or an array of bins; a histogram is selected iff select_bins accepts that cell",
     "a string whose context is malformed for Write (output not a dictionary) and a string with a "
     "group context for MapGroup are selected-but-malformed values and are outside the alphabet",
     "pdflatex / pdftoppm are replaced by a fake subprocess.Popen owned by the explorer (writes a digest "
@@ -113,12 +127,19 @@ def describe(tier):
                 "of selected values), |B| <= 3 (all 16 + 256 + 4096 ordered lists over the element's 16 "
                 "foreign values; LaTeXToPDF: |B| = 3 over its 8 most different foreign values, 512 "
                 "lists), all interleavings; LaTeXToPDF: all completion schedules of the fake converter "
-                "processes; " % _n_cfgs()) + _describe_settings(tier) + _describe_decline(tier)
+                "processes; " % _n_cfgs()) + _describe_settings(tier) + _describe_shapes(tier) + _describe_decline(tier)
     return ("10 elements in %d configurations; |A| <= 2, |B| <= 2 over the element's 16 foreign values "
             "(all 16 + 256 lists) and |B| = 3 over its %d most different foreign values (%d lists), all "
             "interleavings; LaTeXToPDF: 3 of its 5 kinds of selected values and all completion schedules "
             "of the fake converter processes; " % (_n_cfgs(), al.SUBPOOL, al.SUBPOOL ** 3)) \
-        + _describe_settings(tier) + _describe_decline(tier)
+        + _describe_settings(tier) + _describe_shapes(tier) + _describe_decline(tier)
+
+
+def _describe_shapes(tier):
+    n = sum(len(al.shape_pool(k, c, tier)) for k in al.KINDS for c in al.configs(k))
+    return ("shape axis: in every configuration the content of every selected value as a list and as "
+            "a one-shot iterator, and one-shot iterators of 1-3 numbers (%d values in all), |A| <= 2, "
+            "|B| %s, all interleavings; " % (n, "<= 2" if tier == "thorough" else "= 1"))
 
 
 def _describe_settings(tier):
@@ -195,6 +216,20 @@ def shards(tier):
             out.extend(_setting_shards(blen, tier))
         if blen == _decline_max_b(tier):
             out.extend(_decline_shards(tier))
+        if blen == 1:
+            out.extend(_shape_shards(tier))
+    return out
+
+
+# the shape axis (c10_alphabet.shape_pool): one shard = one element configuration, all B lists of one
+# value (thorough: and of two values)
+def _shape_shards(tier):
+    out = []
+    for kind in al.KINDS:
+        for cfg in al.configs(kind):
+            for blen in ((1, 2) if tier == "thorough" else (1,)):
+                out.append({"kind": kind, "cfg": cfg, "blen": blen, "prefix": [], "shapes": 1,
+                            "bound": "|B|<=%d" % blen})
     return out
 
 
@@ -254,7 +289,9 @@ def b_lists(p, tier):
     kind, cfg, blen = p["kind"], p["cfg"], p["blen"]
     if blen == 0:
         return [()]
-    if p.get("settings"):
+    if p.get("shapes"):
+        pool = al.shape_pool(kind, cfg, tier)
+    elif p.get("settings"):
         pool = st.pool(kind, cfg, tier, blen)
     else:
         pool = al.b_pool_for(kind, cfg, blen, tier)
@@ -673,7 +710,10 @@ LEVEL_TEXT = ("bounded exhaustive exploration: for each of the ten selective ele
               "RunIf, MapBins and IterateBins also with tolerant selectors (raise_on_error=False, 5 "
               "forms) whose test raises on the foreign values, for each of 74 exception classes; every "
               "element also with foreign values that carry the context keys the element itself reads "
-              "(way of being unselected x documented key: %d values, lists of one and of two)"
+              "(way of being unselected x documented key: %d values, lists of one and of two), and with "
+              "the content of its selected values held by a list or a one-shot iterator instead of a "
+              "tuple (must pass as the same object, iterators not advanced); MapBins also with a "
+              "user's get_example_bin on histograms with cells of different types"
               % st.n_values())
 LEVEL_NOTE = ("holds for the enumerated alphabet only; pdflatex / pdftoppm are replaced by an "
               "explorer-owned fake Popen; the position of foreign values relative to outputs for selected "
@@ -684,4 +724,4 @@ TECHNIQUE = ("exhaustive enumeration of interleavings on the real elements with 
              "a value is left unselected is an axis too (selector answers False / test raises an "
              "exception of every class under a tolerant selector), and so is what an unselected value "
              "carries in its context (product of the ways of being unselected with the element's own "
-             "documented settings)")
+             "documented settings) and the container that holds it (tuple / list / one-shot iterator)")
